@@ -280,8 +280,71 @@ def fingerprint(seed):
     return res
 
 
+def check_period_units(ctx, rng):
+    """Two offline objects with the same specification text and the same sampling-period *number* in different units (1 s / 1 ms,
+    or 2 s / 2 ms), evaluated one after the other in either order: the second one must not inherit anything from the first.  With
+    the fine period the window exceeds the trace, so the expected values are prefix / suffix extrema."""
+    op = rng.choice(["once", "historically", "eventually", "always"])
+    k, c0, num = rng.randint(1, 4), rng.choice([0.0, 1.0, 2.0]), rng.choice([1, 2])
+    n = rng.randint(3, 8)
+    x = [rng.choice([-1.0, 0.0, 1.0, 2.0, 3.0, 5.0]) for _ in range(n)]
+    order = rng.choice([("s", "ms"), ("ms", "s")])
+    return period_units_case(ctx, op, k, c0, num, x, order)
+
+
+def period_units_case(ctx, op, k, c0, num, x, order):
+    text = "out = (%s[0:%ds] (x >= %s))" % (op, 2 * k, F.lit(c0))
+    n = len(x)
+
+    def expected(unit):
+        w = (2 * k) // num if unit == "s" else 10 ** 9          # window in samples
+        r = [v - c0 for v in x]
+        out = []
+        for i in range(n):
+            if op in ("once", "historically"):
+                seg = r[max(0, i - w):i + 1]
+                pad = i - w < 0
+            else:
+                seg = r[i:i + w + 1]
+                pad = i + w > n - 1
+            if op in ("once", "eventually"):
+                out.append(max(seg))
+            else:
+                out.append(min(seg))
+        return out
+
+    def go():
+        res = {}
+        for u in order:
+            spec = impl.make_spec("offd", text, ["x"], sampling=(num, u, 0.1))
+            spec.parse()
+            res[u] = [p[1] for p in spec.evaluate({"time": list(range(n)), "x": list(x)})]
+        return res
+    out = impl.guarded(go)
+    rep = {"kind": "period-units", "spec": text, "op": op, "k": k, "c0": c0, "x": x, "period_number": num, "order": list(order), "impl": out}
+    if out[0] != "ok":
+        return Violation("evaluate() raised %r: %s (periods %d %s then %d %s)" % (out[1:], text, num, order[0], num, order[1]), rep, stream="pure/period-units")
+    for u in order:
+        if not same_vals(out[1][u], expected(u)):
+            return Violation("two objects, sampling periods %d %s then %d %s: the one with period %d %s returns %r, expected %r: %s"
+                             % (num, order[0], num, order[1], num, u, out[1][u], expected(u), text), rep, stream="pure/period-units")
+    ctx.nontrivial.add(("period-units", text, str(x), order))
+    return None
+
+
 def explore(ctx, rng, count):
-    for _ in range(count):
+    for i_ in range(count):
+        if i_ % 8 == 7:
+            ctx.evaluations += 1
+            ctx.count("kind:period-units")
+            v = check_period_units(ctx, rng)
+            if v is None:
+                ctx.traces_validated += 1
+            else:
+                ctx.violations.append(v)
+                if len(ctx.violations) >= 3:
+                    return
+            continue
         kind = rng.choice(["offd", "offd", "offc", "inter", "inter"])
         ctx.evaluations += 1
         ctx.count("kind:" + kind)
@@ -302,6 +365,9 @@ def explore(ctx, rng, count):
 
 def replay(ctx, obj):
     scratch = Ctx(ctx.id, ctx.tier, ctx.seed)
+    if obj["kind"] == "period-units":
+        v = period_units_case(scratch, obj["op"], obj["k"], obj["c0"], obj["period_number"], [float(t) for t in obj["x"]], tuple(obj["order"]))
+        return (v is None), (v.what if v else "the two objects do not influence each other")
     if obj["kind"] == "offd":
         c = {"kind": "offd", "f": F.from_proto(obj["formula"]), "n": obj["n"], "data": {k: [float(x) for x in v] for k, v in obj["data"].items()}}
         v = check_offline_discrete(scratch, c)
